@@ -106,6 +106,7 @@ def judge(case):
         raise ValueError("malformed case: coinciding onsets / no STANDARD observance")
     if not _representable(defn):
         raise ValueError("malformed case: offset differences of 24 h or more cannot be carried by datetime.dst()")
+    direct = None
     for provider in sut.PROVIDERS:
         sut.reset(provider)
         try:
@@ -153,6 +154,21 @@ def judge(case):
                 problems.append(("tzname", f"tzname {got[1]!r} expected {ob['name']!r}"))
             if ob["kind"] == "STANDARD" and got[2] not in (timedelta(0),):
                 problems.append(("dst", f"dst {got[2]} expected 0 for STANDARD"))
+            if problems and suffix:
+                # RC-K is "dateutil's own reading of this definition deviates from RFC 5545".  Inside its region the delegation is
+                # still checked: the library must answer what dateutil.tz.tzical answers for the plain rendering of the definition;
+                # anything else is not the known finding and is reported in full
+                try:
+                    if direct is None:
+                        import io
+                        import dateutil.tz
+                        direct = dateutil.tz.tzical(io.StringIO("\r\n".join(Z.render(defn)) + "\r\n")).get()
+                    ref = t.replace(tzinfo=UTC).astimezone(direct)
+                    if (ref.utcoffset(), ref.tzname(), ref.dst()) != got:
+                        suffix = ""
+                        problems = [(w_, m_ + f" [dateutil itself answers {(ref.utcoffset(), ref.tzname(), ref.dst())!r}]") for w_, m_ in problems]
+                except Exception:  # noqa: BLE001 - dateutil refuses the plain rendering: nothing to compare with
+                    pass
             for what, msg in problems:
                 key = (what, provider, suffix)
                 if key in seen:
